@@ -342,6 +342,12 @@ def execute(trace, ctx=None):
                     res.probe('single-step-before-populate')
                 if abs(n) > 1:
                     warmed[target] = True
+                if q == 'add' and (k % 3) == 0:
+                    # bdays(t, add(t, n)) == n (same adjustment convention on both sides)
+                    back = lib(lambda: cal.bdays(t, got, adj), what)
+                    if back != n:
+                        raise Violation('bdays', '%s: bdays(t, add(t, %d)) = %r' % (what, n, back), k)
+                    warmed[target] = True
             elif q == 'addinv':
                 n, adj = op['n'], op.get('adj')
                 s = ref.adjust(t, adj)
